@@ -44,6 +44,7 @@ import (
 	"time"
 
 	"github.com/cnotch/ipchub/media"
+	"github.com/cnotch/ipchub/utils"
 	"github.com/gorilla/websocket"
 	"pgregory.net/rapid"
 	"verif/harness/lib/evid"
@@ -120,7 +121,34 @@ type wplan struct {
 	Ops       []wop  `json:"ops"`
 }
 
-var wireKinds = []string{"tcp", "udp", "ws", "wsp", "httpflv", "wsflv"}
+var wireKinds = []string{"tcp", "udp", "mcast", "ws", "wsp", "httpflv", "wsflv"}
+
+// mcast: a member of the multicast proxy that every RECORD-published stream
+// carries (SETUP RTP/AVP;multicast). Usable only where multicast loops back.
+var (
+	wireMcastOnce sync.Once
+	wireMcastErr  error
+)
+
+func wireMulticast() bool {
+	wireMcastOnce.Do(func() {
+		wireMcastErr = rtspc.MulticastProbe()
+		if wireMcastErr != nil {
+			evid.Note("multicast unavailable on this host, multicast-proxy members are skipped: %v", wireMcastErr)
+			return
+		}
+		// ipchub hands out groups 235.0.0.0+n and ports 16666+n from a per-process counter:
+		// give this process a region of its own, other check processes share the host
+		h := uint32(os.Getpid())*2654435761 + uint32(time.Now().UnixNano())
+		for i := uint32(0); i < h%(1<<22); i++ {
+			utils.Multicast.NextIP()
+		}
+		for i := uint32(0); i < (h>>8)%20000; i++ {
+			utils.Multicast.NextPort()
+		}
+	})
+	return wireMcastErr == nil
+}
 
 func genWirePlan(t *rapid.T) *wplan {
 	pl := &wplan{H265: rapid.IntRange(0, 2).Draw(t, "h265") == 0, Audio: rapid.Bool().Draw(t, "audio")}
@@ -128,14 +156,35 @@ func genWirePlan(t *rapid.T) *wplan {
 	var kinds []string
 	for _, k := range wireKinds {
 		if only := os.Getenv("VERIF_WIRE_KINDS"); only == "" || strings.Contains(","+only+",", ","+k+",") {
+			if k == "mcast" && !wireMulticast() {
+				evid.Class("wire: multicast unavailable - multicast-proxy members skipped")
+				continue
+			}
 			kinds = append(kinds, k)
 		}
+	}
+	var kindsNoMcast []string
+	for _, k := range kinds {
+		if k != "mcast" {
+			kindsNoMcast = append(kindsNoMcast, k)
+		}
+	}
+	if len(kindsNoMcast) == 0 {
+		kindsNoMcast = []string{"tcp"}
+	}
+	genRecord := map[int]bool{0: pl.Publisher == "record"} // only RECORD-published streams have a multicast proxy
+	kindsFor := func(g int) []string {
+		if genRecord[g] {
+			return kinds
+		}
+		return kindsNoMcast
 	}
 	// a small simulation keeps the history meaningful: stops address clients that are
 	// attached, ends address streams that are live
 	type simClient struct {
 		gen   int
 		alive bool
+		kind  string
 	}
 	var clients []simClient // creation order = index the run uses
 	live := []int{0}        // live stream generations, oldest first
@@ -182,8 +231,15 @@ func genWirePlan(t *rapid.T) *wplan {
 		k := rapid.IntRange(0, 15).Draw(t, "op")
 		switch {
 		case cur >= 0 && (k <= 5 || len(aliveIdx) == 0):
-			pl.Ops = append(pl.Ops, wop{Op: "attach", Kind: rapid.SampledFrom(kinds).Draw(t, "kind")})
-			clients = append(clients, simClient{cur, true})
+			kind := rapid.SampledFrom(kindsFor(cur)).Draw(t, "kind")
+			for _, j := range on(cur) { // multicast members come in groups: they share one proxy
+				if clients[j].kind == "mcast" && rapid.IntRange(0, 9).Draw(t, "anotherMember") < 5 {
+					kind = "mcast"
+					break
+				}
+			}
+			pl.Ops = append(pl.Ops, wop{Op: "attach", Kind: kind})
+			clients = append(clients, simClient{cur, true, kind})
 		case k <= 8 && len(aliveIdx) > 0:
 			who := rapid.SampledFrom(aliveIdx).Draw(t, "who")
 			pl.Ops = append(pl.Ops, wop{Op: "stop", Who: who, How: rapid.SampledFrom([]string{"teardown", "disconnect"}).Draw(t, "how")})
@@ -196,11 +252,12 @@ func genWirePlan(t *rapid.T) *wplan {
 				endGen(cur) // a retired stream without clients is closed at once
 			}
 			cur = nextGen
+			genRecord[cur] = true
 			live = append(live, nextGen)
 			nextGen++
 		case k == 13 && cur >= 0:
-			pl.Ops = append(pl.Ops, wop{Op: "end+attach", Kind: rapid.SampledFrom(kinds).Draw(t, "kind"), How: rapid.SampledFrom([]string{"publisher", "delete"}).Draw(t, "endHow"), Spin: rapid.IntRange(0, 40).Draw(t, "spin")})
-			clients = append(clients, simClient{cur, false}) // whatever becomes of it, it ends with the stream
+			pl.Ops = append(pl.Ops, wop{Op: "end+attach", Kind: rapid.SampledFrom(kindsFor(cur)).Draw(t, "kind"), How: rapid.SampledFrom([]string{"publisher", "delete"}).Draw(t, "endHow"), Spin: rapid.IntRange(0, 40).Draw(t, "spin")})
+			clients = append(clients, simClient{cur, false, ""}) // whatever becomes of it, it ends with the stream
 			endGen(cur)
 		case k >= 14:
 			old := rapid.Bool().Draw(t, "old")
@@ -339,7 +396,24 @@ func (c *wclient) tracks() int {
 	return 1
 }
 
+// readUDP collects the datagrams of one socket until it is closed.
+func (c *wclient) readUDP(u *net.UDPConn) {
+	buf := make([]byte, 70000)
+	for {
+		n, _, err := u.ReadFromUDP(buf)
+		if err != nil {
+			return
+		}
+		c.udpMu.Lock()
+		c.udpGot = append(c.udpGot, append([]byte(nil), buf[:n]...))
+		c.udpMu.Unlock()
+	}
+}
+
 func (c *wclient) transportHeader(track int) (string, error) {
+	if c.kind == "mcast" {
+		return "RTP/AVP;multicast", nil // group and ports come with the answer
+	}
 	if c.kind == "udp" {
 		for k := 0; k < 2; k++ {
 			u, err := net.ListenUDP("udp4", &net.UDPAddr{IP: net.IPv4(127, 0, 0, 1)})
@@ -348,18 +422,7 @@ func (c *wclient) transportHeader(track int) (string, error) {
 			}
 			u.SetReadBuffer(4 << 20)
 			c.udp[2*track+k] = u
-			go func() {
-				buf := make([]byte, 70000)
-				for {
-					n, _, err := u.ReadFromUDP(buf)
-					if err != nil {
-						return
-					}
-					c.udpMu.Lock()
-					c.udpGot = append(c.udpGot, append([]byte(nil), buf[:n]...))
-					c.udpMu.Unlock()
-				}
-			}()
+			go c.readUDP(u)
 		}
 		return fmt.Sprintf("RTP/AVP;unicast;client_port=%d-%d", c.udp[2*track].LocalAddr().(*net.UDPAddr).Port, c.udp[2*track+1].LocalAddr().(*net.UDPAddr).Port), nil
 	}
@@ -370,7 +433,7 @@ func (c *wclient) transportHeader(track int) (string, error) {
 // been read (RTSP family) / the stream lists the consumer (FLV family).
 func (c *wclient) attach(s *srv.Server, path string) error {
 	switch c.kind {
-	case "tcp", "udp", "ws":
+	case "tcp", "udp", "mcast", "ws":
 		return c.attachRTSP(s, path)
 	case "wsp":
 		return c.attachWSP(s, path)
@@ -416,8 +479,26 @@ func (c *wclient) attachRTSP(s *srv.Server, path string) (err error) {
 		if err != nil {
 			return err
 		}
-		if _, err := do("SETUP", rtspc.TrackURL(url, ctl[tr].Control), map[string]string{"Transport": th}); err != nil {
+		r, err := do("SETUP", rtspc.TrackURL(url, ctl[tr].Control), map[string]string{"Transport": th})
+		if err != nil {
 			return err
+		}
+		if c.kind == "mcast" { // join what the answer names, before PLAY
+			group, rtp, rtcp, err := rtspc.MulticastTarget(r.Get("Transport"))
+			if err != nil {
+				return err
+			}
+			for k, port := range []int{rtp, rtcp} {
+				if port <= 0 {
+					continue
+				}
+				u, err := rtspc.JoinMulticast(group, port)
+				if err != nil {
+					return err
+				}
+				c.udp[2*tr+k] = u
+				go c.readUDP(u)
+			}
 		}
 	}
 	_, err = do("PLAY", url, map[string]string{"Range": "npt=0.000-"})
@@ -598,7 +679,7 @@ func (c *wclient) attachWSFlv(s *srv.Server, path string) (err error) {
 // closed reports how the client observed the end of its connection ("" = still open).
 func (c *wclient) closed() string {
 	switch c.kind {
-	case "tcp", "ws", "udp":
+	case "tcp", "ws", "udp", "mcast":
 		if c.rc == nil {
 			return "never connected"
 		}
@@ -674,7 +755,7 @@ func (c *wclient) has(marker []byte) bool {
 	switch c.kind {
 	case "tcp", "ws":
 		return bytes.Contains(c.rc.Captured(), marker)
-	case "udp":
+	case "udp", "mcast":
 		c.udpMu.Lock()
 		defer c.udpMu.Unlock()
 		for i := len(c.udpGot) - 1; i >= 0; i-- {
@@ -696,7 +777,7 @@ func (c *wclient) has(marker []byte) bool {
 
 func (c *wclient) teardown(s *srv.Server, path string) {
 	switch c.kind {
-	case "tcp", "udp", "ws":
+	case "tcp", "udp", "mcast", "ws":
 		c.rc.Send(c.rc.Build("TEARDOWN", s.RTSP(path), nil, nil))
 	case "wsp":
 		c.ctlSeq++
@@ -851,13 +932,40 @@ func (w *wworld) genIndex(g *wgen) int {
 
 // want is the reference consumer count of a stream generation.
 func (w *wworld) want(gi int) int {
-	n := 0
+	n, members := 0, 0
 	for _, c := range w.clients {
 		if c.attached && !c.stopped && c.gen == gi && !w.gens[gi].ended {
+			if c.kind == "mcast" {
+				members++ // the members of a stream share one consumer: its multicast proxy
+			} else {
+				n++
+			}
+		}
+	}
+	if members > 0 {
+		n++
+	}
+	return n
+}
+
+func (w *wworld) members(gi int) int {
+	n := 0
+	for _, c := range w.alive(gi) {
+		if c.kind == "mcast" {
 			n++
 		}
 	}
 	return n
+}
+
+// proxyListed reports whether the stream lists its multicast proxy as a consumer.
+func proxyListed(st *media.Stream) bool {
+	for _, ci := range st.Info(true).Consumptions {
+		if strings.Contains(ci.Extra, "rtsp-multicast") {
+			return true
+		}
+	}
+	return false
 }
 
 func (w *wworld) alive(gi int) []*wclient {
@@ -875,6 +983,10 @@ func (w *wworld) checkCounts(after string) {
 		gi, g := gi, g
 		if !srv.WaitFor(wireBound(), func() bool { return g.st.ConsumerCount() == w.want(gi) }) {
 			evid.Violation(w.t, "wire-consumer-count", w.detail(map[string]any{"stream": gi}), "after %s: stream #%d reports %d consumers, the reference says %d (waited %v)", after, gi, g.st.ConsumerCount(), w.want(gi), wireBound())
+		}
+		// the multicast proxy consumes exactly while the stream has members
+		if !srv.WaitFor(wireBound(), func() bool { return proxyListed(g.st) == (w.members(gi) > 0) }) {
+			evid.Violation(w.t, "wire-multicast-proxy", w.detail(map[string]any{"stream": gi}), "after %s: stream #%d has %d multicast members and lists its multicast proxy as a consumer: %v (waited %v)", after, gi, w.members(gi), proxyListed(g.st), wireBound())
 		}
 	}
 }
@@ -1081,31 +1193,7 @@ func runWireCase(t evid.TB, pl *wplan) {
 			if c == nil || !c.attached || c.stopped || w.gens[c.gen].ended {
 				continue
 			}
-			others := 0
-			for _, x := range w.alive(c.gen) {
-				if x != c {
-					others++
-				}
-			}
-			how := o.How
-			if how == "teardown" && (c.kind == "httpflv" || c.kind == "wsflv") {
-				how = "disconnect"
-			}
-			w.note("%s stopped by %s", c, how)
-			c.stopped = true
-			if how == "teardown" {
-				c.teardown(s, w.path)
-				if !srv.WaitFor(wireBound(), func() bool { return c.closed() != "" }) {
-					evid.Violation(t, "wire-not-released", w.detail(map[string]any{"client": c.id}), "%s sent TEARDOWN and its connection is still open after %v %s", c, wireBound(), c.halfClosed())
-				}
-			}
-			c.disconnect()
-			w.checkCounts("stopping " + c.String())
-			w.stillOpen("stopping " + c.String())
-			w.flows(c.gen, "stopping "+c.String())
-			if others > 0 {
-				w.stopsWithOthers++
-			}
+			w.stop(c, o.How)
 		case "publish":
 			for gi, g := range w.gens {
 				if g.ended {
@@ -1250,6 +1338,17 @@ func runWireCase(t evid.TB, pl *wplan) {
 		}
 	}
 	evid.Class("wire: publisher " + pl.Publisher)
+	for gi := range w.gens {
+		mc := 0
+		for _, c := range w.clients {
+			if c.attached && c.gen == gi && c.kind == "mcast" {
+				mc++
+			}
+		}
+		if mc >= 2 {
+			evid.Class("wire: a stream had >=2 multicast members")
+		}
+	}
 	for _, o := range pl.Ops {
 		switch o.Op {
 		case "end", "end+attach":
@@ -1271,6 +1370,34 @@ func runWireCase(t evid.TB, pl *wplan) {
 		if evid.WantSample("wire") {
 			evid.Sample("wire", map[string]any{"plan": pl, "history": w.log})
 		}
+	}
+}
+
+// stop ends one client (TEARDOWN / disconnect) and judges that it alone is released.
+func (w *wworld) stop(c *wclient, how string) {
+	others := 0
+	for _, x := range w.alive(c.gen) {
+		if x != c {
+			others++
+		}
+	}
+	if how == "teardown" && (c.kind == "httpflv" || c.kind == "wsflv") {
+		how = "disconnect"
+	}
+	w.note("%s stopped by %s", c, how)
+	c.stopped = true
+	if how == "teardown" {
+		c.teardown(w.s, w.path)
+		if !srv.WaitFor(wireBound(), func() bool { return c.closed() != "" }) {
+			evid.Violation(w.t, "wire-not-released", w.detail(map[string]any{"client": c.id}), "%s sent TEARDOWN and its connection is still open after %v %s", c, wireBound(), c.halfClosed())
+		}
+	}
+	c.disconnect()
+	w.checkCounts("stopping " + c.String())
+	w.stillOpen("stopping " + c.String())
+	w.flows(c.gen, "stopping "+c.String())
+	if others > 0 {
+		w.stopsWithOthers++
 	}
 }
 
@@ -1305,8 +1432,25 @@ func TestWireQuietDisconnect(t *testing.T) {
 	s := srv.Start(srv.Options{})
 	for _, kind := range wireKinds {
 		path := fmt.Sprintf("/c03w/q%d", atomic.AddUint64(&wireCases, 1))
-		st := srv.PublishStream(path, mediah.SDP(esgen.H264, false))
-		g := &wgen{st: st, seq: 1, ts: 90000}
+		var st *media.Stream
+		g := &wgen{seq: 1, ts: 90000}
+		if kind == "mcast" { // a multicast proxy exists only on a RECORD-published stream
+			if !wireMulticast() {
+				continue
+			}
+			rc, err := rtspc.Dial(s.Addr(), wireBound())
+			if err != nil {
+				t.Fatalf("machinery: publisher dial: %v", err)
+			}
+			defer rc.Close()
+			if _, err := rc.Record(s.RTSP(path), mediah.SDP(esgen.H264, false)); err != nil {
+				t.Fatalf("machinery: RECORD dialogue: %v", err)
+			}
+			g.rec, st = rc, media.Get(path)
+		} else {
+			st = srv.PublishStream(path, mediah.SDP(esgen.H264, false))
+		}
+		g.st = st
 		rtsp0, flv0, wsp0 := srv.RtspConns(), srv.FlvConns(), srv.WspConns()
 		c := &wclient{kind: kind}
 		if err := c.attach(s, path); err != nil {
@@ -1832,4 +1976,72 @@ func TestWirePlayerDiesInsidePlay(t *testing.T) {
 		evid.Eval(1)
 		dieInsidePlay(t, p)
 	})
+}
+
+// TestWireMulticastMembers is the minimal witness for the multicast proxy (one
+// media consumer per RECORD-published stream, shared by all players that SETUP
+// RTP/AVP;multicast): (a) of two members one leaves: the other keeps receiving
+// and the proxy keeps consuming; the stream ends: every member's RTSP connection
+// is closed; (b) the last member of a REPLACED stream leaves: the retired stream
+// loses its proxy consumer and a player of the successor stream is not touched.
+func TestWireMulticastMembers(t *testing.T) {
+	if !wireMulticast() {
+		evid.Class("wire: multicast unavailable - multicast-proxy members skipped")
+		t.Skip("multicast unavailable on this host")
+	}
+	s := srv.Start(srv.Options{})
+	newWorld := func() *wworld {
+		pl := &wplan{Publisher: "record"}
+		w := &wworld{t: t, s: s, pl: pl, path: fmt.Sprintf("/c03w/m%d", atomic.AddUint64(&wireCases, 1)), sdp: mediah.SDP(esgen.H264, false)}
+		w.newGen("record")
+		return w
+	}
+	cleanup := func(w *wworld) {
+		for _, c := range w.clients {
+			c.disconnect()
+		}
+		for _, g := range w.gens {
+			if g.rec != nil {
+				g.rec.Close()
+			}
+		}
+		srv.WaitFor(wireBound(), func() bool { return media.Get(w.path) == nil })
+	}
+	for _, how := range []string{"teardown", "disconnect"} {
+		// (a) first member leaves, second stays
+		w := newWorld()
+		evid.Eval(1)
+		m1 := w.attach("mcast", true)
+		m2 := w.attach("mcast", true)
+		w.checkCounts("two members attached")
+		w.flows(0, "two members attached")
+		w.stop(m1, how) // judges: proxy still consuming, m2 open and receiving
+		_ = m2
+		w.end(w.gens[0], "publisher")
+		w.released(0, "publisher")
+		cleanup(w)
+		// the stream ends under two members
+		w = newWorld()
+		evid.Eval(1)
+		w.attach("mcast", true)
+		w.attach("mcast", true)
+		w.attach("tcp", true)
+		w.flows(0, "two members and a tcp player attached")
+		w.end(w.gens[0], "delete")
+		w.released(0, "delete")
+		cleanup(w)
+		// (b) the last member of a replaced stream leaves
+		w = newWorld()
+		evid.Eval(1)
+		m := w.attach("mcast", true) // the proxy is consumer #1 of stream #0
+		w.newGen("record")
+		p := w.attach("tcp", true) // consumer #1 of stream #1
+		w.checkCounts("replacement")
+		w.flows(0, "replacement")
+		w.flows(1, "replacement")
+		w.stop(m, how)
+		_ = p
+		cleanup(w)
+	}
+	evid.Class("wire witness: multicast members leave / stream ends / replaced stream")
 }
